@@ -260,9 +260,14 @@ func opnFrame(seq, reqID uint32) []byte {
 
 // opnFrameWith builds an unsecured OpenSecureChannel request chunk that names any policy URI and mode.
 func opnFrameWith(policyURI string, mode ua.MessageSecurityMode, seq, reqID uint32) []byte {
+	return opnFrameKind(policyURI, mode, ua.SecurityTokenRequestTypeIssue, 0, seq, reqID)
+}
+
+// opnFrameKind: request type (Issue / Renew) and the channel id of the chunk header are chosen too.
+func opnFrameKind(policyURI string, mode ua.MessageSecurityMode, kind ua.SecurityTokenRequestType, chanID, seq, reqID uint32) []byte {
 	body, err := ua.Encode(&ua.OpenSecureChannelRequest{
 		RequestHeader:     &ua.RequestHeader{AuthenticationToken: ua.NewTwoByteNodeID(0), Timestamp: time.Now(), RequestHandle: reqID, AdditionalHeader: ua.NewExtensionObject(nil)},
-		RequestType:       ua.SecurityTokenRequestTypeIssue,
+		RequestType:       kind,
 		SecurityMode:      mode,
 		RequestedLifetime: 3600000,
 	})
@@ -275,7 +280,7 @@ func opnFrameWith(policyURI string, mode ua.MessageSecurityMode, seq, reqID uint
 	rest = binary.LittleEndian.AppendUint32(rest, reqID)
 	rest = append(rest, 1, 0, 0xbe, 0x01) // four-byte node id i=446
 	rest = append(rest, body...)
-	return frame("OPNF", 0, rest)
+	return frame("OPNF", chanID, rest)
 }
 
 func msgFrame(chanID, tokenID, seq, reqID uint32, typeID uint16, req any) []byte {
